@@ -147,7 +147,9 @@ def directed_floats(F, rng, per_exp):
     out = []  # (pattern, class)
     for E in range(0, top + 1):
         fr = [0, 1, (1 << w) - 1, 1 << (w - 1), rng.getrandbits(w), rng.getrandbits(rng.randint(1, w)) << rng.randint(0, w - 1)]
-        fr = [x & ((1 << w) - 1) for x in fr][:per_exp]
+        fr = [x & ((1 << w) - 1) for x in fr]
+        if per_exp < len(fr):  # every exponent keeps frac=0 plus a rotating choice of the other shapes
+            fr = [fr[0]] + [fr[1 + (E + k) % (len(fr) - 1)] for k in range(per_exp - 1)]
         for frac in fr:
             for s in (0, 1):
                 out.append((pack(F, s, E, frac), "exp-sweep"))
@@ -372,7 +374,7 @@ def run(ctx):
         float_cases.append(("16", b, prec))
     ctx.exhaustive = True
     # float32 / float64: directed + random
-    for F, per_exp, nrand in (("32", ctx.scale(6, 6), ctx.scale(3000, 200000)), ("64", ctx.scale(4, 6), ctx.scale(3000, 200000))):
+    for F, per_exp, nrand in (("32", ctx.scale(6, 6), ctx.scale(3000, 200000)), ("64", ctx.scale(2, 6), ctx.scale(2000, 200000))):
         p, ew = FMTS[F]
         ds = directed_floats(F, rng, per_exp)
         ds += [(rng.getrandbits(p + ew), "random") for _ in range(nrand)]
